@@ -148,11 +148,11 @@ SystemMaybe<Fs::DirEnts> Fs::readDirFromDIR(DIR* d, int flags) {
       return SYSTEM_ERROR(errno);
     }
 
-    if ((flags & DirEntFlags::DE_FILE) && (buf.st_mode & S_IFREG)) {
+    if ((flags & DirEntFlags::DE_FILE) && S_ISREG(buf.st_mode)) {
       de.files.push_back(dir->d_name);
     }
-    if ((flags & DirEntFlags::DE_DIR) && (buf.st_mode & S_IFDIR)) {
-      de.files.push_back(dir->d_name);
+    if ((flags & DirEntFlags::DE_DIR) && S_ISDIR(buf.st_mode)) {
+      de.dirs.push_back(dir->d_name);
     }
   }
 
